@@ -34,6 +34,7 @@ inline J knobs_op(Rng& r, int min_fd, int max_fd) {
     k.set("chunk", chunks[r.below(10)]);
     k.set("fdlimit", r.range(min_fd, max_fd));
     k.set("heap_junk", r.chance(0.85));
+    k.set("heap_zero_null", r.chance(0.15));  // malloc(0) may return NULL
     static const int64_t oasbufs[] = {0, 0, 1, 2, 7, 64, 1000, 65536};
     k.set("oas_buf", oasbufs[r.below(8)]);  // guarded hook: initial CBLOCK staging buffer of write_oas (0 = shipped size)
     return k;
@@ -866,6 +867,11 @@ inline J random_filter(Rng& r, const model::MLib& m) {
     }
     J f = J::arr();
     int n = (int)r.range(0, 3);
+    if (r.chance(0.2)) {
+        // filters around the sizes at which a hashed set grows
+        static const int sizes[] = {4, 5, 7, 8, 9, 15, 16, 17, 31, 32, 33, 64};
+        n = sizes[r.below(12)];
+    }
     for (int i = 0; i < n; i++) {
         J t = J::arr();
         if (!tags.empty() && r.chance(0.8)) {
@@ -925,6 +931,35 @@ inline J plan_c17(uint64_t verif_seed, uint64_t index, int tier) {
         p.rep.sp = model::Pt{60, 50};
         big.polys.push_back(p);
         m.cells.push_back(big);
+    }
+    if (ro.chance(0.06)) {
+        // dozens to hundreds of distinct tags in one file: the tag sets behind the summary and the filter grow
+        // several times, and pairs that differ only in the layer or only in the type sit next to each other
+        model::MCell tc;
+        tc.name = "TAGS_" + std::to_string(ro.below(1000));
+        static const int counts[] = {3, 4, 5, 7, 8, 9, 15, 16, 17, 31, 32, 33, 63, 64, 65, 127, 128, 129, 200};
+        int n = counts[ro.below(19)];
+        int cols = (int)ro.range(1, 12);
+        for (int i = 0; i < n; i++) {
+            uint32_t layer = (uint32_t)(i % cols), type = (uint32_t)(i / cols);
+            if (ro.chance(0.5)) std::swap(layer, type);
+            model::dg_t x0 = (model::dg_t)(i * 30) * 10, y0 = (model::dg_t)ro.range(-50, 50) * 10;
+            if (i % 3 != 2) {
+                model::MPoly p;
+                p.layer = layer;
+                p.dtype = type;
+                p.pts = {model::Pt{x0, y0}, model::Pt{x0 + 200, y0}, model::Pt{x0 + 200, y0 + 100}, model::Pt{x0, y0 + 100}};
+                tc.polys.push_back(p);
+            } else {
+                model::MLabel l;
+                l.text = "t" + std::to_string(i);
+                l.layer = layer;
+                l.ttype = type;
+                l.origin = model::Pt{x0, y0};
+                tc.labels.push_back(l);
+            }
+        }
+        m.cells.push_back(tc);
     }
     // files gdstk writes for tags above 32767 (the field is a signed 16-bit number: out of the format's range,
     // but "any file produced by gdstk" all the same): nothing is said here about what such a tag loads as,
